@@ -1,8 +1,155 @@
-(* Properties/C02.v — Cesium survives a crash at any point with consistent, durable data. *)
-From Coq Require Import List NArith ZArith Bool.
-From Synnax Require Import Cesium.FsLog Cesium.Crash Cesium.CrashProofs.
-Import ListNotations.
+(* Properties/C02.v — Cesium survives a crash at any point with consistent, durable data.
 
-Theorem C02_log_compositional : forall l1 l2 s, apply_all s (l1 ++ l2) = apply_all (apply_all s l1) l2.
-Proof. exact apply_all_app. Qed.
-Print Assumptions C02_log_compositional.
+   Objects.  One channel directory of cesium (index.domain, counter.domain, <k>.domain,
+   meta.json) under the process-crash model of the property: a crash image is the effect of
+   a prefix of the sequence of file-system mutations the operations issue (FsLog.apply:
+   create / write / write-at / truncate / rename / remove as x/io/fs implements them),
+   optionally followed by a proper prefix of the payload of the next write
+   (FsLog.crash_image).  Crash.step is the persistence protocol as the Go code issues it
+   (data append at Write; index persist = Truncate THEN WriteAt; counter; meta tmp+rename;
+   GC copy / rename / rename / remove / one index rewrite; channel delete rename+remove);
+   Crash.view_of is what a restart serves from an image: whether the directory exists,
+   whether it can be opened (meta.json), and every pointer of the decoded index together
+   with the bytes it designates (domain.Open does no validation: floor(len/26) records).
+   Histories are arbitrary lists of operations; the arguments the layers above compute
+   (commit end stamps, the byte offsets a delete resolves) are universally quantified.
+
+   Crash.legal collects the decidable side conditions under which the theorems are stated
+   (operations on an existing directory, representable pointers, a writer's file exists,
+   a delete persists from a position before which disk and memory agree, GC and delete
+   leave pointers inside their files — C04's subject); the correspondence check evaluates
+   it on every generated history.
+
+   Only statements here, each closed by [exact]. *)
+From Coq Require Import List NArith ZArith Bool.
+From Synnax Require Import Cesium.FsLog Cesium.Crash Cesium.CrashProofs Cesium.CrashInv Cesium.CrashMain.
+Import ListNotations.
+Local Open Scope Z_scope.
+
+(* (1) Crash atomicity, for all histories, all cut points, all torn lengths — outside the
+   three windows (Crash.win_class <> 0: channel directory without meta.json; between a
+   length-changing index Truncate and its WriteAt or inside a torn index WriteAt; between
+   GC's first file rename and the index rewrite).  The image is indistinguishable, to a
+   restart, from the directory right before or right after the operation in progress:
+   nothing older than what was on disk before it, nothing that no operation produced. *)
+Theorem C02_crash_consistent_partial : forall cap thr h k t,
+  legal cap thr h = true ->
+  let log := fslog cap thr h in
+  (k <= length log)%nat -> torn_ok log k t ->
+  win_class (win_image log k t) = 0%nat ->
+  adjacent None (snd (fst (run (init cap thr) h))) k (view_of (crash_image None log k t)).
+Proof. exact crash_consistent_partial. Qed.
+Print Assumptions C02_crash_consistent_partial.
+
+(* the same statement for one operation started from any state that satisfies the
+   invariant (what the induction uses; it also shows the directory after the operation is
+   exactly the effect of the calls it issued, in that order) *)
+Theorem C02_operation_atomic : forall s w o s' es oc,
+  Inv s w -> step s o = (s', es, oc) -> legal_step s o s' oc = true ->
+  s_fs s' = apply_all (s_fs s) es /\ Inv s' (fold_left win_step es w) /\ cuts_ok (s_fs s) w es /\
+  (idx_written es = true -> disk_ptrs (s_fs s') = s_ptrs s').
+Proof. intros s w o s' es oc HI. exact (step_all_good s w o HI s' es oc). Qed.
+Print Assumptions C02_operation_atomic.
+
+(* (2) Durability: after any history, an operation that rewrote the index leaves on disk
+   exactly the in-memory pointer list, a restart loads exactly that list, and every pointer
+   designates bytes that are there. *)
+Theorem C02_persisted_is_durable : forall cap thr h o s' es oc,
+  legal cap thr h = true ->
+  let s := fst (fst (run (init cap thr) h)) in
+  step s o = (s', es, oc) -> legal_step s o s' oc = true ->
+  idx_written es = true ->
+  disk_ptrs (s_fs s') = s_ptrs s' /\
+  s_ptrs (recover cap thr (s_fs s')) = s_ptrs s' /\
+  forall p, In p (s_ptrs s') -> read_d (s_fs s') p <> None.
+Proof. exact persisted_is_durable. Qed.
+Print Assumptions C02_persisted_is_durable.
+
+(* which operations those are: a successful commit of pending bytes by a writer that is not
+   lazily persisted (always-persist auto-commit, or an explicit commit) ... *)
+Theorem C02_commit_rewrites_index : forall s wid e hint s' es x,
+  step s (DCommit wid e hint) = (s', es, ROk) ->
+  assoc (s_ws s) wid = Some x -> w_mode x <> MLazy -> w_len x <> 0%N ->
+  idx_written es = true.
+Proof. exact commit_rewrites_index. Qed.
+Print Assumptions C02_commit_rewrites_index.
+
+(* ... and closing a lazily persisted writer *)
+Theorem C02_lazy_close_rewrites_index : forall s wid s' es oc x,
+  step s (DCloseW wid) = (s', es, oc) ->
+  assoc (s_ws s) wid = Some x -> w_mode x = MLazy ->
+  idx_written es = true.
+Proof. exact lazy_close_rewrites_index. Qed.
+Print Assumptions C02_lazy_close_rewrites_index.
+
+(* (3) The index rewrite itself: Truncate(26*|P|) then WriteAt(26*sd, encode P[sd:]) over a
+   file whose first 26*sd bytes encode P[:sd] leaves encode P, and the 26-byte record
+   round-trips every representable pointer (layout regenerated from the Go source). *)
+Theorem C02_index_rewrite : forall ib P sd,
+  (sd <= length P)%nat ->
+  firstn (26 * sd) ib = encode_ptrs (firstn sd P) ->
+  write_at (trunc_to ib (26 * length P)) (26 * sd) (encode_ptrs (skipn sd P)) = encode_ptrs P.
+Proof. exact index_rewrite. Qed.
+Print Assumptions C02_index_rewrite.
+
+Theorem C02_pointer_codec_roundtrip : forall l, forallb wf_ptr l = true -> decode_ptrs (encode_ptrs l) = l.
+Proof. exact decode_encode. Qed.
+Print Assumptions C02_pointer_codec_roundtrip.
+
+(* (4) The full statement (no window guard) is FALSE of the faithful model; each window
+   has a witness, replayed on the implementation by the check (known findings F2, F47,
+   F48, F49). *)
+Theorem C02_truncate_gap_refuted :
+  let log := fslog wit_cap 0 h_gap in
+  let img := crash_image None log 13 0 in
+  legal wit_cap 0 h_gap = true /\
+  win_class (win_image log 13 0) = 2%nat /\
+  alien_pointer wit_cap 0 h_gap img zero_ptr = true /\
+  let r := recover wit_cap 0 img in
+  seek_found r 12 = Some (10, 13) /\
+  let '(r2, _, ocs) := run r later_write in
+  ocs = [ROk; ROk; ROk; ROk] /\
+  seek_found r2 12 = None /\
+  snd (usearch (s_ptrs r2) (span0 12)) = false.
+Proof. exact truncate_gap_refuted. Qed.
+Print Assumptions C02_truncate_gap_refuted.
+
+Theorem C02_torn_index_refuted :
+  let log := fslog wit_cap 0 h_gap in
+  let img := crash_image None log 13 30 in
+  win_class (win_image log 13 30) = 3%nat /\
+  alien_pointer wit_cap 0 h_gap img (mkPtr 30 0 0 0 0) = true.
+Proof. exact torn_index_refuted. Qed.
+Print Assumptions C02_torn_index_refuted.
+
+Theorem C02_meta_window_refuted :
+  let log := fslog wit_cap 0 h_gap in
+  forallb (fun k =>
+     let img := crash_image None log k 0 in
+     Nat.eqb (win_class (win_image log k 0)) 1 &&
+     match view_of img with Some v => negb (v_meta v) | None => false end) [1; 2; 3]%nat = true /\
+  forallb (fun j => match view_of (boundary wit_cap 0 h_gap j) with
+                    | Some v => v_meta v | None => true end) (seq 0 9) = true.
+Proof. exact meta_window_refuted. Qed.
+Print Assumptions C02_meta_window_refuted.
+
+Theorem C02_gc_window_refuted :
+  let log := fslog wit_cap 0 h_gc in
+  legal wit_cap 0 h_gc = true /\
+  forallb (fun k => Nat.eqb (win_class (win_image log k 0)) 4 && unreadable (crash_image None log k 0))
+          [16; 17; 18; 19]%nat = true /\
+  forallb (fun j => negb (unreadable (boundary wit_cap 0 h_gc j))) (seq 0 9) = true.
+Proof. exact gc_window_refuted. Qed.
+Print Assumptions C02_gc_window_refuted.
+
+(* Non-vacuity: a legal history whose log has cut points of every kind; 10 of its 15 plain
+   cuts and 51 of all its crash points (torn variants included) lie outside the windows,
+   e.g. a data append torn after 5 bytes shows the directory as it was before the write. *)
+Example C02_partial_nonvacuous :
+  let log := fslog wit_cap 0 h_gap in
+  legal wit_cap 0 h_gap = true /\
+  length (filter (outside log) (map (fun k => (k, 0%nat)) (seq 0 15))) = 10%nat /\
+  length (filter (outside log) (crash_points log)) = 51%nat /\
+  outside log (8%nat, 5%nat) = true /\
+  view_of (crash_image None log 8 5) = view_of (boundary wit_cap 0 h_gap 2).
+Proof. exact partial_nonvacuous. Qed.
